@@ -228,7 +228,13 @@ func Run(d *fw.Driver, res *fw.Result, seed int64, thorough bool) error {
 	envs := map[string]*envT{}
 	defer func() {
 		for _, e := range envs {
-			e.close()
+			// a stuck upload keeps httptest.Server.Close waiting: do not let the harness hang on it
+			done := make(chan struct{})
+			go func(e *envT) { e.close(); close(done) }(e)
+			select {
+			case <-done:
+			case <-time.After(3 * time.Second):
+			}
 		}
 	}()
 	get := func(tr string) (*envT, error) {
@@ -260,11 +266,17 @@ func Run(d *fw.Driver, res *fw.Result, seed int64, thorough bool) error {
 					if r.Intn(4) == 0 {
 						conc = 2 + r.Intn(7)
 					}
+					if res.Enough() {
+						return nil
+					}
 					e, err := get(tr)
 					if err != nil {
 						return err
 					}
 					if err := runGroup(d, res, r, e, tr, ln, pattern, order, conc); err != nil {
+						if err == errHang {
+							return nil // a concrete failing run is recorded; the environment is wedged, stop here
+						}
 						return err
 					}
 				}
@@ -275,6 +287,8 @@ func Run(d *fw.Driver, res *fw.Result, seed int64, thorough bool) error {
 	// observable trace without hooks) are covered by the theorem; here both forced orders above.
 	return nil
 }
+
+var errHang = fmt.Errorf("a reader-carrying call hangs")
 
 func runGroup(d *fw.Driver, res *fw.Result, r *rand.Rand, e *envT, tr string, ln, pattern int, order string, conc int) error {
 	e.pushWait, e.rpcWait = 0, 0
@@ -313,8 +327,8 @@ func runGroup(d *fw.Driver, res *fw.Result, r *rand.Rand, e *envT, tr string, ln
 	select {
 	case <-done:
 	case <-time.After(30 * time.Second):
-		res.Add(fw.Finding{Kind: "monitor", Signature: fmt.Sprintf("reader call hangs pattern=%d order=%s", pattern, order), Detail: "a reader-carrying call did not return within 30s", Case: results[0].c})
-		return nil
+		res.Add(fw.Finding{Kind: "monitor", Signature: fmt.Sprintf("reader call hangs pattern=%d order=%s", pattern, order), Detail: fmt.Sprintf("a reader-carrying call (%d concurrent) did not return within 30s", conc), Case: results[0].c})
+		return errHang
 	}
 	// every upload request completes once its handler has consumed (or closed) the stream
 	e.nCalls += int64(conc)
